@@ -26,6 +26,9 @@ RULE = (
     "priority schedules, and a bounded-exhaustive DFS over lock/event-granularity choices (3 writers, <= 2 preemptions). A schedule "
     "is distinct by its thread trace; non-trivial = at least one thread had to wait."
 )
+RULE += " " + (
+    "Also: writers using the with-statement and leaving it through ValueError / a private BaseException / GeneratorExit / KeyboardInterrupt; replacement writers; B-tree zones; reader threads coming and going next to the writers."
+)
 ASSUMPTIONS = [
     "the scheduler serialises real threads, so only interleavings at the registered yield points are explored (lock/event operations, statement starts of the watched functions, explicit pauses); OS-level fairness is not modelled",
     "'started waiting' = creation of the waiter Event (done under the zone lock immediately before it is queued)",
